@@ -94,18 +94,21 @@ fi
 ''',
     # step command used by the orchestrator harnesses:
     #   probe NAME : logs start/end with a monotonic stamp and the content of .running,
-    #   then sleeps / exits as the plan file says ("NAME SLEEP_MS EXIT" per line)
+    #   then sleeps / exits as the plan file says ("NAME SLEEP_MS EXIT [LINGER_MS]" per line)
     "probe": r'''#!/bin/bash
 name="$1"
 now() { read -r up _ < /proc/uptime; echo "$up"; }
 lock="$(cat "${VERIF_ROOT}/.running" 2>/dev/null | tr -d '\n')"
 echo "start $name $(now) lock=$lock" >> "$VERIF_PROBE_LOG"
 echo "output of $name"
-ms=0; ex=0
-while read -r n s e; do
-    if [ "$n" = "$name" ]; then ms="$s"; ex="$e"; fi
+ms=0; ex=0; linger=0
+while read -r n s e l; do
+    if [ "$n" = "$name" ]; then ms="$s"; ex="$e"; linger="${l:-0}"; fi
 done < "$VERIF_PROBE_PLAN"
 if [ "$ms" != "0" ]; then sleep "$(printf '%d.%03d' $((ms / 1000)) $((ms % 1000)))"; fi
+# a child that outlives the step's main process and keeps its standard output open (a daemon started by
+# the step): the step's log pipeline sees end of file only when it is gone
+if [ "$linger" != "0" ]; then sleep "$(printf '%d.%03d' $((linger / 1000)) $((linger % 1000)))" & fi
 echo "end $name $(now) exit=$ex" >> "$VERIF_PROBE_LOG"
 exit "$ex"
 ''',
